@@ -242,7 +242,9 @@ def _expr(draw, model, env, depth):
     if depth <= 0:
         n, t = draw(st.sampled_from(env))
         return ["var", n], t
-    c = draw(st.integers(0, 15))
+    c = draw(st.integers(0, 13))
+    if depth >= 1 and draw(st.integers(0, 7)) == 0:
+        c = 14  # a called lambda (below)
     if c <= 5:  # method call chain step
         obj, t = draw(_expr(model, env, depth - 1))
         ms = all_methods(model, t)
@@ -324,7 +326,7 @@ def _expr(draw, model, env, depth):
             if later_m:
                 mm, rr = draw(st.sampled_from(later_m))
                 return ["fld", ["dict", [["k0", first], ["k1", ["call", ["var", n], mm]]]], "k1", draw(st.sampled_from(["attr", "key"]))], rr
-    if c >= 13 and depth >= 1:
+    if c == 14 and depth >= 1:
         # a lambda called where it is written (the keyword-only parameter keeps it from being substituted): its parameter has the
         # type of the argument, the call the type of the body
         arg, at = draw(_expr(model, env, depth - 1))
